@@ -1,5 +1,5 @@
 """C15 - blackbox dump files: faithful round trip, no crash on damaged files."""
-from engine.qb import (AnalysisBroken, abstract_run, estr, unwrap, cval, walk, last_field, fields_of, callee_of,
+from engine.qb import (cmp_forms, AnalysisBroken, abstract_run, estr, unwrap, cval, walk, last_field, fields_of, callee_of,
                        mentions_var, atoms_of, root_var)
 from engine.bounds import Analysis, Lin, State
 from rules.common import field_is, has_call, derives, value_sources, macro_named
@@ -23,7 +23,7 @@ RULES = {
     'R9': 'printing a dump uses a ring of its own: the name qb_rb_create_from_file gives to qb_rb_open is not a constant (it contains the process id), so that two printers at the same time do not meet in each other\'s files and leave one behind',
     'R7': 'the reader takes what the writer can store: the largest message length the printer accepts and the text buffer it decodes into are not below the largest max_line_length a target can be given (C13.R4), and the record buffer is not of a constant size (the function name in a record has no bound) but measured on the ring just opened, and that measure is only ever raised by a constant, not capped',
 }
-FLOORS = {'R1': 9, 'R2': 12, 'R3': 2, 'R4': 9, 'R5': 5, 'R6': 12, 'R7': 4, 'R8': 4, 'R9': 1}
+FLOORS = {'R1': 9, 'R2': 12, 'R3': 2, 'R4': 9, 'R5': 6, 'R6': 12, 'R7': 4, 'R8': 4, 'R9': 1}
 
 
 def run(ctx):
@@ -367,8 +367,40 @@ def r4(ctx):
         ctx.check('R4', 'tool:uses-library-printer', bool(calls), t, 'qb-blackbox prints through qb_log_blackbox_print_from_file', 'qb-blackbox no longer uses the library printer')
 
 
+def _r5_minimum(ctx):
+    """the reader refuses no record the writer stores: what it demands of a record beyond the function name (its minimum entry size) is not
+    more than the fixed fields the writer puts around the name plus the shortest message (one byte)"""
+    from rules import c07
+    prog = ctx.prog
+    wr = prog.fn('_blackbox_vlogger')
+    rd = prog.fn('qb_log_blackbox_print_from_file')
+    fixed = None
+    for st in wr.events('STORE'):
+        if st.d['op'] == '=' and st.rhs is not None and unwrap(st.lhs).get('k') == 'var':
+            k = c07._plus_const(st.rhs, lambda v: unwrap(v).get('k') == 'var')
+            if k is not None and k >= 16:
+                fixed = k if fixed is None else min(fixed, k)
+    if fixed is None:
+        raise AnalysisBroken('_blackbox_vlogger: the fixed size of a record (constant + function name length) was not found')
+    demands = []
+    for b in rd.blocks.values():
+        c = unwrap(b.cond) if b.cond else None
+        for (l, o, r) in cmp_forms(c) if c else []:
+            for (x, y, oo) in ((l, r, o), (r, l, {'<': '>', '>': '<', '<=': '>=', '>=': '<='}.get(o, o))):
+                k = c07._plus_const(x, lambda v: unwrap(v).get('k') == 'var')
+                if k is not None and k >= 8 and unwrap(y).get('k') == 'var' and oo in ('>', '>='):
+                    demands.append((b, k))
+    if not demands:
+        raise AnalysisBroken('print_from_file: no test of the form name length + constant > bytes read')
+    for (b, k) in demands:
+        ctx.check('R5', 'record:reader-minimum<=writer-minimum', k <= fixed + 1, '%s:%d (%s)' % (rd.file, b.term_ln, rd.name),
+                  'the reader wants name length + %d bytes of a record, the writer stores name length + %d + at least 1' % (k, fixed),
+                  'the reader refuses a record shorter than name length + %d bytes, the writer stores name length + %d plus a message of at least 1 byte: a record with an empty message is taken for a corrupt one, it and every later record are not printed' % (k, fixed))
+
+
 def r5(ctx):
     prog = ctx.prog
+    _r5_minimum(ctx)
     w = prog.fn('qb_rb_write_to_file')
     r = prog.fn('qb_rb_create_from_file')
     worder = []
